@@ -130,7 +130,9 @@ class C08(core.Check):
         later = [q for q in d.safe_points if at < q < end]
         if later and rnd.random() < .4:
             q = rnd.choice(later) + n
-            brk = rnd.choice(['\\par ', '\\par\n', '\\begin{proof}\\end{proof}', '\\begin{minipage}{3cm}\\end{minipage}'])
+            brk = rnd.choice(['\\par ', '\\par\n', '\\begin{proof}\\end{proof}', '\\begin{minipage}{3cm}\\end{minipage}',
+                              # blank lines of files with CR LF line ends, or with other white space on them
+                              '\r\n\r\n', '\n\x0c\n', ' \r\n \r\n', '\n\x0b\n\n'])
             return src[:q] + brk + src[q:], at + nt, q + len(brk)
         return src, at + nt, end + n
 
